@@ -117,4 +117,15 @@ PROPS = {
         ],
         "explanation": "call set-up and local-variable slot handlers of VmCore under contract",
     },
+    "C17": {
+        "units": ["intr"],
+        "trusted_base": COMMON_TB + [
+            "units/intr/prelude.rs: AtomicCell as a plain cell, reduced SteelThread/Synchronizer/VmCore (Synchronizer field list checked against the real struct), std::thread::park shadowed by a ghost stub that resumes after a fixed number of parks",
+        ],
+        "assumptions": [
+            "that every loop of every tier polls safepoint_or_interrupt (interpreter loop head, native-compiled code, transducers, higher-order primitives) and the latency bound are NOT decided - that is most of the property",
+            "single thread: the flag protocol is decided for the polling thread given the flags; interleavings of the two relaxed stores in interrupt() with a poll are not explored (C15/C16 territory)",
+        ],
+        "explanation": "flag protocol of interruption: interrupt/resume transitions, the poll's reaction to every flag combination, safepoint wait-loop exit",
+    },
 }
